@@ -180,6 +180,43 @@ def run(ctx: Ctx) -> None:
             jobs.append((E, M, sb, xb, R, n, {r: yb[r].copy() for r in rs_keep}, colcounts, cnt))
             del yb, yv, ay, ok_neigh, moved, x, y
             _release_memory()
+    # ---- the same draws through the straight-through entry points, for formats that share (E, M) and differ only in the
+    #      random-bit count, fewer bits first: every draw of every element gives exactly what `quantise` gives, so the
+    #      probabilities counted above are those of quantise_fwd / quantise_bwd too
+    for (E, M) in ((4, 3), (5, 2), (3, 6)):
+        for sb in (2, 7, 11):
+            f = FPFormat(E, M, "stochastic", srbits=sb)
+            R = 1 << sb
+            key = {"E": E, "M": M, "srbits": sb, "entry": "quantise_fwd/quantise_bwd"}
+            gen_ = torch.Generator().manual_seed(E * 100 + M * 10 + sb)
+            n = 48
+            x1 = (torch.randn(n, generator=gen_) * 2.0 ** torch.randint(-6, 4, (n,), generator=gen_).float())
+            x = x1.unsqueeze(0).expand(R, n).contiguous()
+
+            def enum_randint(low, high, size, dtype=None, **kw):
+                return (low + torch.arange(size[0], dtype=dtype or torch.int64)).unsqueeze(1).expand(tuple(size)).contiguous()
+
+            torch.randint = enum_randint
+            try:
+                with ctx.guard("C14:entry-points", key):
+                    want = f.quantise(x)
+                    got_f = f.quantise_fwd(x.clone().requires_grad_(True)).detach()
+                    xi = torch.zeros(R, n, requires_grad=True)
+                    (got_b,) = torch.autograd.grad(f.quantise_bwd(xi), xi, x)
+                    ctx.evaluations += 2 * R * n
+                    distinct += 2 * R * n
+                    ctx.bump("entry-points", 2 * R * n)
+                    for nm, got in (("quantise_fwd", got_f), ("quantise_bwd", got_b)):
+                        if not torch.equal(got, want):
+                            j = int((got != want).any(dim=0).nonzero()[0])
+                            cnt_g = int((got[:, j].abs() > want[:, j].abs().min()).sum())
+                            cnt_w = int((want[:, j].abs() > want[:, j].abs().min()).sum())
+                            ctx.violation(f"C14:{nm}:probability", f"{nm} rounds away from zero with a different probability than "
+                                          "the format's own stochastic rounding (draws enumerated)",
+                                          {**key, "x": float(x1[j])}, {"count": cnt_g, "of": R, "expected_count": cnt_w})
+            finally:
+                torch.randint = real_randint
+
     ctx.distinct_extra += distinct
     ctx.samples = [{"E": 4, "M": 3, "srbits": 5, "x_bits": 0x3FA66666, "draws": "all 32"}]
 
